@@ -512,7 +512,19 @@ def main(prop, run):
                 traceback.print_exc()
                 sys.exit(2)
             sys.exit(status)
-        traceback.print_exc()   # machinery failure: not a violation
+        traceback.print_exc()   # machinery failure: not a violation ...
+        if getattr(ctx, "violations", None):
+            # ... but failing inputs against the real code that the oracles had already recorded before the harness
+            # tripped over the same inconsistent answers of the library are still reported (they are concrete replays);
+            # a run whose recorded violations are all known findings stays a machinery failure
+            ctx.count("harness_stopped_early_after_violations")
+            try:
+                status = ctx.finish(rule="the run stopped early inside the harness after violations had been recorded")
+            except Exception:  # noqa: BLE001
+                traceback.print_exc()
+                status = 0
+            if status == 1:
+                sys.exit(1)
         print(f"[{prop}] internal error of the checking machinery", file=sys.stderr)
         sys.exit(2)
     sys.exit(status)
